@@ -225,7 +225,9 @@ static void checkCc(const unsigned char *text, const unsigned len)
     vf_quiet();
     for (unsigned i = 0; i < len; ++i) vf_assume(text[i] != 0);   // a header field value cannot contain NUL
     const RefCc ref = reference(text, len);
+#ifndef C29_SHOW_FINDINGS      // (spec: defines=["C29_SHOW_FINDINGS"] makes the check report the excluded classes as violations)
     vf_assume(!ref.excluded);
+#endif
     String value;
     value.assign(reinterpret_cast<const char *>(text), (int)len);
     HttpHdrCc cc;
@@ -322,3 +324,9 @@ extern "C" void c29_any(void)
     in[n] = 0;
     checkCc(in, n);
 }
+
+#ifdef C29_SHOW_FINDINGS
+// not in a tier: concrete witnesses of two excluded classes
+FAMILY(c29_show_quoted_pair, "no-cache=\"a\\\"b\"")      // no-cache="a\"b"  -> Squid: no_cache == "a"
+FAMILY(c29_show_wrap, "max-age=4294967296")              // -> Squid: max-age=0
+#endif
